@@ -489,7 +489,30 @@ def a_log_thread_skips_format_errors(prog):
             return False, "log_thread propagates the per-record formatting error with `?`"
         if kind == "return":
             return False, "log_thread returns the per-record formatting result"
-    return True, "a formatting error of one record does not end log_thread"
+    # the other way log_thread can fail at once is that the configured file cannot be opened: init must have tried the very same open
+    # (and reported its error) before the thread is spawned, so that a bad `accessLog.path` is a start-up error and not a panic later
+    openers = set(c.local_key() for c in f.calls if c.local_key() and c.local_key() in prog.fns and
+                  any(re.search(r"OpenOptions::open$|fs::File::(open|create)$", x.path or "") for x in prog.body_of(prog.fns[c.local_key()]).calls))
+    ini = prog.find(r"^access_log::AccessLog::init$", "redproxy_rs")
+    if len(ini) != 1:
+        return False, "AccessLog::init not found"
+    ib = prog.body_of(ini[0])
+    spawns = [c for c in ib.calls if re.search(r"tokio::task::spawn::spawn$", c.path or "")]
+    pre = [c for c in ib.calls if c.local_key() in openers]
+    if not openers or not spawns:
+        return False, "log_thread's file opener or the spawn in AccessLog::init was not found"
+    from ..flow import awaited as aw_
+    okpre = False
+    for c in pre:
+        a = aw_(ib, c)
+        if a and a.get("result") is not None and all(ib.dominates(c.bb, s_.bb) for s_ in spawns):
+            tr, cons2 = flow_forward(ib, [a["result"]], [r"easy_error::ResultExt::context$", r"Result::<T, E>::map_err$"])
+            if any(kind == "call" and re.search(r"Try::branch$", info.path or "") for kind, b, info, l in cons2):
+                okpre = True
+    if not okpre:
+        return False, "AccessLog::init no longer opens the configured log file (with `?`) before spawning log_thread: a path that cannot be opened " \
+                      "is accepted at start-up and the log thread's failure handler panics afterwards"
+    return True, "a formatting error of one record does not end log_thread, and init opens the log file before spawning it"
 
 
 def a_tls_init(prog):
